@@ -1,5 +1,6 @@
 import OhkamiModel.M.SessionProofs
 import OhkamiModel.M.SessionOne
+import OhkamiModel.GenSession
 /-! # C05 — property theorems about the session-loop model -/
 namespace C05
 open Ohkami Ohkami.Session
@@ -41,5 +42,15 @@ example : Exact getRoot := by
   have h1 : getRoot.take BUF = getRoot := by decide
   have h2 : getRoot.drop BUF = [] := by decide
   rw [h1, h2, getRoot_parse]; rfl
+
+/-- the loop the theorems are about is the loop of the source (the arms of the match on `Request::read` in `Session::manage`, regenerated on every run) -/
+theorem source_ends_session_after_refusal :
+    Ohkami.Gen.refusalIsAnswered = true ∧ Ohkami.Gen.refusalEndsSession = true ∧ Ohkami.Gen.noRequestEndsSession = true := by decide
+
+/-- what the model has no clock or mutable `ip` field to exhibit is read off the source: the Keep-Alive timeout is put around the wait for a request and
+around nothing else (a request that comes in time is answered however old the session is and however long its handler takes), and the connection's
+address is written back into the reused request object before each request (what a fang wrote into the public field `ip` is not the next request's).
+Both are also exercised in real time by the correspondence run (scenario `timed` of the C05 executor, `OHKAMI_KEEPALIVE_TIMEOUT=1`). -/
+theorem source_session_is_per_request : Ohkami.Gen.keepAliveBoundsTheWaitOnly = true ∧ Ohkami.Gen.ipRestored = true := by decide
 
 end C05
